@@ -482,7 +482,7 @@ def main():
             "claimed_clauses": P.get("clauses", []),
             "not_decided": P.get("not_decided", []),
             "tools": tools,
-            "explanation": P.get("explanation", ""),
+            "explanation": P.get("explanation") or ("Claimed clauses: " + "; ".join(P.get("clauses", [])))[:4000],
         },
         "assumptions": sorted(set(P.get("assumptions", []) + assumptions)),
         "wall_s": round(wall, 2),
